@@ -38,6 +38,86 @@ class Action:
     prods: List[Production]
 
 
+def inline_generator_loops(fn: ast.FunctionDef, helpers: Dict[str, ast.FunctionDef], depth: int = 2) -> ast.FunctionDef:
+    """A copy of `fn` in which `for T in self.gen(args): BODY` over a generator
+    method `gen` is replaced by gen's body (parameters substituted) with every
+    statement `yield v` replaced by `T = v; BODY`.  Only when BODY has no
+    break / continue / return and gen has no return-with-value and its locals
+    do not clash with fn's: then the two programs perform the same effects in
+    the same order."""
+    import copy
+
+    from .core import link_parents
+
+    def is_gen(h: ast.FunctionDef) -> bool:
+        return any(isinstance(n, ast.Yield) for n in ast.walk(h)) and not any(isinstance(n, ast.YieldFrom) for n in ast.walk(h))
+
+    def names_stored(n: ast.AST) -> set:
+        return {x.id for x in ast.walk(n) if isinstance(x, ast.Name) and isinstance(x.ctx, ast.Store)}
+
+    def splice(stmts: List[ast.stmt], target: ast.expr, body: List[ast.stmt]) -> Optional[List[ast.stmt]]:
+        out: List[ast.stmt] = []
+        for st in stmts:
+            if isinstance(st, ast.Expr) and isinstance(st.value, ast.Yield):
+                v = st.value.value or ast.Constant(value=None)
+                out.append(ast.copy_location(ast.Assign(targets=[copy.deepcopy(target)], value=v, lineno=st.lineno), st))
+                out.extend(copy.deepcopy(body))
+                continue
+            if any(isinstance(x, ast.Yield) for x in ast.walk(st)) and not isinstance(st, (ast.For, ast.While, ast.If, ast.With, ast.Try)):
+                return None  # a yield used as an expression
+            for field in ("body", "orelse", "finalbody"):
+                sub = getattr(st, field, None)
+                if isinstance(sub, list) and sub and isinstance(sub[0], ast.stmt):
+                    r = splice(sub, target, body)
+                    if r is None:
+                        return None
+                    setattr(st, field, r)
+            out.append(st)
+        return out
+
+    def expand(stmts: List[ast.stmt], d: int, fn_locals: set) -> List[ast.stmt]:
+        out: List[ast.stmt] = []
+        for st in stmts:
+            if isinstance(st, ast.For) and d > 0 and not st.orelse and isinstance(st.iter, ast.Call) and isinstance(st.iter.func, ast.Attribute) and isinstance(st.iter.func.value, ast.Name) and st.iter.func.value.id == "self" and st.iter.func.attr in helpers and not st.iter.keywords:
+                h = helpers[st.iter.func.attr]
+                params = [a.arg for a in h.args.args[1:]]
+                body_ok = not any(isinstance(x, (ast.Break, ast.Continue, ast.Return)) for b in st.body for x in ast.walk(b))
+                gen_ok = is_gen(h) and not any(isinstance(x, ast.Return) and x.value is not None for x in ast.walk(h)) and len(params) == len(st.iter.args) and all(isinstance(a, (ast.Name, ast.Constant, ast.Attribute)) for a in st.iter.args)
+                clash = (names_stored(h) - set(params)) & fn_locals
+                if body_ok and gen_ok and not (names_stored(h) & set(params)):
+                    class T(ast.NodeTransformer):
+                        def visit_Name(self, n: ast.Name) -> Any:
+                            if n.id in mapping and isinstance(n.ctx, ast.Load):
+                                return copy.deepcopy(mapping[n.id])
+                            if n.id in clash:
+                                return ast.copy_location(ast.Name(id=n.id + "__g", ctx=n.ctx), n)  # the generator's own local
+                            return n
+
+                    mapping = dict(zip(params, st.iter.args))
+                    hb = [T().visit(copy.deepcopy(b)) for b in h.body if not (isinstance(b, ast.Expr) and isinstance(b.value, ast.Constant))]
+                    new = splice(hb, st.target, expand(st.body, d, fn_locals))
+                    if new is not None:
+                        out.extend(expand(new, d - 1, fn_locals | names_stored(h)))
+                        continue
+            for field in ("body", "orelse", "finalbody"):
+                sub = getattr(st, field, None)
+                if isinstance(sub, list) and sub and isinstance(sub[0], ast.stmt):
+                    setattr(st, field, expand(sub, d, fn_locals))
+            out.append(st)
+        return out
+
+    if not any(isinstance(n, ast.For) and isinstance(n.iter, ast.Call) and isinstance(n.iter.func, ast.Attribute) and n.iter.func.attr in helpers for n in ast.walk(fn)):
+        return fn
+    new_fn = copy.deepcopy(fn)
+    new_fn.body = expand(new_fn.body, depth, names_stored(fn) | {a.arg for a in fn.args.args})
+    ast.fix_missing_locations(new_fn)
+    link_parents(new_fn)
+    par = getattr(fn, "_parent", None)
+    if par is not None:
+        new_fn._parent = par  # type: ignore[attr-defined]
+    return new_fn
+
+
 def inline_statement_helpers(fn: ast.FunctionDef, helpers: Dict[str, ast.FunctionDef], depth: int = 2) -> ast.FunctionDef:
     """A copy of `fn` in which statement-level calls `self.helper(args)` of
     procedure-like helpers (no value returned) are replaced by the helper's
@@ -50,7 +130,8 @@ def inline_statement_helpers(fn: ast.FunctionDef, helpers: Dict[str, ast.Functio
 
     def procedure_like(h: ast.FunctionDef) -> bool:
         for n in ast.walk(h):
-            if isinstance(n, ast.Return) and n.value is not None and not (isinstance(n.value, ast.Constant) and n.value.value is None):
+            # the value of the last statement's `return x` is discarded at a statement-level call
+            if isinstance(n, ast.Return) and n is not h.body[-1] and n.value is not None and not (isinstance(n.value, ast.Constant) and n.value.value is None):
                 return False
             if isinstance(n, (ast.Yield, ast.YieldFrom)):
                 return False
@@ -81,7 +162,11 @@ def inline_statement_helpers(fn: ast.FunctionDef, helpers: Dict[str, ast.Functio
                 if procedure_like(h) and len(params) == len(c.args) and simple and not (assigned & set(params)) and h.name != fn.name:
                     body = [b for b in h.body if not (isinstance(b, ast.Expr) and isinstance(b.value, ast.Constant))]
                     if body and isinstance(body[-1], ast.Return):
-                        body = body[:-1]
+                        rv = body[-1].value
+                        if rv is None or isinstance(rv, (ast.Name, ast.Constant, ast.Attribute)):
+                            body = body[:-1]
+                        else:
+                            body = body[:-1] + [ast.copy_location(ast.Expr(value=rv), body[-1])]
                     new = subst(body, dict(zip(params, c.args)))
                     for b in new:
                         for n in ast.walk(b):
